@@ -50,7 +50,7 @@ CHECKS = {
  "C15": ("per-method rules on go/cfg for every UnmarshalJSON/MarshalJSON of the module",
          "For every UnmarshalJSON: the pointer receiver is rejected when nil before any dereference and every store through it happens only when decoding reported no error (or every later return is nil); for every MarshalJSON: the receiver itself is never handed to json.Marshal; fp.Option emits null exactly on the not-defined side and the payload's encoding otherwise; the decoder is never handed the target itself; no Go-syntax quoting in MarshalJSON; no UnmarshalJSON switches its decoder to UseNumber; an index / bounded slice of the input bytes is reached only through a condition on their length (R-JSONBOUNDS); no MarshalJSON returns a package-level slice (R-JSONFRESH).",
          "§4 C15", "round-trip equality and agreement with encoding/json on the Mutable twin for all struct shapes"),
- "C16": ("memoiser shape rule, thunk-reference counting, trampoline call-shape rules, deferred-self-call rule, nil-fact dataflow",
+ "C16": ("memoiser shape rule, thunk-reference counting, trampoline call-shape rules, deferred-self-call rule, nil-fact dataflow, one-thunk-per-cell rule for user functions in lazy list cells",
          "Run-once and trampoline clauses: memoisers run the computation only inside once.Do of a per-value sync.Once, first thing in the returned closure; Call/TailCall/MakeList hand their thunk to a memoiser and reference it nowhere else; building an Eval calls no function value eagerly; Run loops on Resume and neither calls back into Run/Get; FoldRight functions defer their self call through lazy.TailCall and never force their own recursive result (no nested trampoline); closures of package lazy write captured variables of the enclosing function only inside once.Do (no cell shared between evaluations); zero Eval is guarded.",
          "§4 C16", "equality with strict evaluation; stack depth as a number"),
  "C17": ("stale-state (affine use) rule on go/cfg over func(S)(Try,S) literals + parameter relevance",
@@ -62,7 +62,7 @@ CHECKS = {
  "C19": ("must-hold lock dataflow on SSA, E1 snapshot immutability, syntactic single-load and check-then-act rules (direct and through delegating publishers)",
          "Structural conditions of linearizability: every Store on the snapshot cell happens under the map's mutex and every exit releases it; no method (nor a literal handed to copyOnWrite) writes a map loaded from the cell; read-only methods load the snapshot once; a method that reads outside the lock before copyOnWrite re-derives its decision from the literal's own parameter and returns nothing read after the critical section; the snapshot a published value derives from is read under the lock; every operation publishes at most one snapshot (no publishing call in a loop or twice on one path); the innermost condition deciding a Store, if it examines the cell, examines a value read under the lock; a method that publishes through another method returns nothing read from the map after that call; when the critical section can keep the snapshot, the method does not return the value it meant to store.",
          "§4 C19", "linearizability over all interleavings"),
- "C20": ("path-sensitive nil-fact dataflow on SSA (R-NILGUARD), fabricated-return rule, must-hold lock dataflow on SSA",
+ "C20": ("path-sensitive nil-fact dataflow on SSA (R-NILGUARD), fabricated-return rule, must-hold lock dataflow on SSA, inner-iterator-in-loop rule for flat-map thunks",
          "Three clauses: every call through Iterator.hasNext is dominated by its nil test (zero Iterator behaves as empty); no MakeIterator next() returns a fabricated zero value; in Duplicate every access to the shared queue/flag/source happens with the mutex held and every exit releases it; when hasNext keeps look-ahead state, next re-establishes it through hasNext or its refill helper; calls into the source iterator made under Duplicate's mutex are covered by a deferred Unlock (a panicking Next does not leave the mutex held); when hasNext depends on state that next updates, next does not guard its pull with the source's HasNext alone; a pulled element reaches a look-ahead variable only through a condition on the predicate's verdict (R-CACHEGUARD); the closure fields of an Iterator value other than the receiver are called only under an explicit nil test (R-RAWFIELD).",
          "§4 C20", "HasNext idempotence of look-ahead combinators; pull-order independence of Duplicate/Span/Partition"),
 }
